@@ -17,7 +17,7 @@ MTIME = 1600000000
 
 
 def setup(src):
-    e2v.build_driver("copychunk", ["theories/Populate/CopyChunk.vo"], ["copychunk_model"])
+    e2v.build_driver("copychunk", ["theories/Populate/CopyChunk.vo", "theories/Populate/SeekAlign.vo"], ["copychunk_model"])
 
 
 def make_tree(root, r, huge=False):
@@ -213,8 +213,45 @@ def holes_check(mexe, root, fs, img_tree, r):
         data = open(p, "rb").read()
         lines.append("M %d 0 %s" % (fs.bs, data.hex()))
         meta.append((p, data))
+    # files too large to hand over as bytes: their data extents (SEEK_DATA/SEEK_HOLE), widened by the extracted data_blk/hole_blk,
+    # must contain every mapped block, and every block with a non-zero 1k piece must be mapped
+    for dp, dn, fn in os.walk(root):
+        for f in fn:
+            p = os.path.join(dp, f)
+            st = os.lstat(p)
+            if not (stat.S_ISREG(st.st_mode) and st.st_size > extfmt.BIG_FILE):
+                continue
+            rel = ("/" + os.path.relpath(p, root)).encode("utf-8", "surrogateescape").decode("latin1")
+            ino = lookup(fs, rel)
+            if ino is None:
+                continue
+            fd = os.open(p, os.O_RDONLY)
+            ranges, nonzero, pos = [], set(), 0
+            try:
+                while pos < st.st_size:
+                    try:
+                        d0 = os.lseek(fd, pos, os.SEEK_DATA)
+                    except OSError:
+                        break
+                    h0 = os.lseek(fd, d0, os.SEEK_HOLE)
+                    o = subprocess.run([mexe], input=("A %d %d %d\n" % (fs.bs, d0, h0)).encode(), stdout=subprocess.PIPE, timeout=30).stdout.decode().split()
+                    ranges.append((int(o[0]) // fs.bs, int(o[1]) // fs.bs))
+                    q = d0 - d0 % fs.bs
+                    while q < h0:
+                        if os.pread(fd, fs.bs, q).strip(b"\0"):
+                            nonzero.add(q // fs.bs)
+                        q += fs.bs
+                    pos = h0
+            finally:
+                os.close(fd)
+            m, _ = fs.file_map(ino, fs.inode(ino))
+            n += 1
+            outside = [l for l in m if not any(a <= l < b for a, b in ranges)]
+            missing = [l for l in sorted(nonzero) if l not in m]
+            if outside or missing:
+                bad.append("%s (%d bytes): mapped blocks outside the widened data extents %s, blocks with data that are not mapped %s" % (rel, st.st_size, outside[:6], missing[:6]))
     if not lines:
-        return bad, 0
+        return bad, n
     out = subprocess.run([mexe], input=("\n".join(lines) + "\n").encode(), stdout=subprocess.PIPE, timeout=600).stdout.decode().split("\n")
     byname = {}
     for (p, data), o in zip(meta, out):
@@ -332,7 +369,7 @@ def run(res, replay=None):
     src = e2v.ensure_build()
     pr = e2v.coq_property("C18")
     res.add_proof(pr)
-    mexe = e2v.build_driver("copychunk", ["theories/Populate/CopyChunk.vo"], ["copychunk_model"])
+    mexe = e2v.build_driver("copychunk", ["theories/Populate/CopyChunk.vo", "theories/Populate/SeekAlign.vo"], ["copychunk_model"])
     res.cov["trusted_base"] = e2v.TRUSTED_COMMON + [
         "lib/extfmt.py tree(): the check's own reader of the populated filesystem; host side: lstat/readlink/listxattr of the generated tree",
         "host filesystem behaviour (sparse files, xattr and mknod support of the sandbox) is an input, not modelled",
